@@ -104,7 +104,10 @@ def combiner_rules(rep, ctx, a, key):
         # in a loop of its own body, or in a helper every invocation of which happens inside a loop of a caller
         from ..rules import refusal as R5
         lead = R5.leads_to(g, (bid, i))
-        if i in RNG.cyclic_blocks(f.bodies[bid]) or any(x in RNG.cyclic_blocks(f.bodies[cb]) for cb, at in lead.items() for x in at):
+        from . import c07 as C07
+        if i in RNG.cyclic_blocks(f.bodies[bid]) or any(x in RNG.cyclic_blocks(f.bodies[cb]) for cb, at in lead.items() for x in at) \
+                or C07.per_element_body(f, g, a.ctx_adt, bid, 0, set()):
+            # (the last: the draw sits in the closure of `fold` / `map` / `for_each`, which runs once per element)
             live_in_loop.append((bid, i, t))
     rep.count("rng_draw_sites", len(draws))
     if live_in_loop:
